@@ -52,7 +52,7 @@ mod __verif_kani {
     #[kani::stub(crate::bits::scan::block_popcount, contract_block_popcount)]
     pub fn c01_with_config_len64() { with_config_case(64); }
 
-    //@ kind=B props=C01 tier=thorough bound=4_words,len=70 fn=BitVec::with_config : 4 symbolic words, len=70: count_ones/count_zeros/rank1(past len) equal the count over the first len bits; every stored word at or past len is zero, every full word below len unchanged
+    //@ kind=B props=C01 bound=4_words,len=70 fn=BitVec::with_config : 4 symbolic words, len=70: count_ones/count_zeros/rank1(past len) equal the count over the first len bits; every stored word at or past len is zero, every full word below len unchanged
     #[kani::proof]
     #[kani::unwind(10)]
     #[kani::stub(crate::bits::scan::block_popcount, contract_block_popcount)]
